@@ -1,4 +1,4 @@
-\* ShardedMailbox with finishShardDrain re-invoking WITHOUT setting `scheduled` again (ReschedKeepsFlag = FALSE; not the code as it is): TLC finds two overlapping handlers of one shard - invariant C37_NoOverlap is violated (depth 19). Not registered (fails by design); its counterexample is the gated schedule "mailbox-resched-overlap".
+\* ShardedMailbox with finishShardDrain re-invoking WITHOUT setting `scheduled` again (ReschedKeepsFlag = FALSE; not the code as it is): TLC finds two drains of one shard - invariant C37_Order is violated after 20 states, C37_NoOverlap (checked alone) after 21. Not registered (fails by design); its counterexample is the gated schedule "mailbox-resched-overlap".
 SPECIFICATION Spec
 CONSTANTS
   NP = 1
